@@ -1093,6 +1093,17 @@ func (g *Gen) Program(minStmts, maxStmts int) *ast.Root {
 			root.Stmts = g.StmtList(minStmts, maxStmts, true)
 		}
 	}
+	if len(g.O.LeadHTML) == 0 && !g.O.NoHTML && g.chance(1, 6, "leadhtml") {
+		// a template: text before the first open tag
+		h := g.inlineHTML()
+		if bytes.HasPrefix(h.Value, []byte("#!")) && bytes.IndexByte(h.Value, '\n') >= 0 {
+			// the first line of a file that starts with "#!" is a shebang line, not text; a second such
+			// line is text again (layout puts the real shebang line in front when the policy has one)
+			g.LeadHashBang = true
+		}
+		g.feat("lead-html")
+		root.Stmts = append([]ast.Vertex{h}, root.Stmts...)
+	}
 	if len(g.O.LeadHTML) > 0 {
 		t := g.tok(token.T_INLINE_HTML, string(g.O.LeadHTML))
 		g.setGap(t, GapNone)
